@@ -201,8 +201,10 @@ def run_servers(worlds, hseeds, workdir, parallel=16, timeout=3000, after=None):
             out = os.path.join(workdir, "out.%d.jsonl" % i)
             priv = os.path.join(workdir, "priv.%03d" % after.get(i, i))
             os.makedirs(priv, exist_ok=True)
+            errf = open(os.path.join(workdir, "err.%d.txt" % i), "wb")
             p = subprocess.Popen([sys.executable, "-m", "bbsim.c19server", wpath, out, priv], cwd=VERIF, env=env,
-                                 stdout=subprocess.DEVNULL, stderr=subprocess.PIPE)
+                                 stdout=subprocess.DEVNULL, stderr=errf)
+            errf.close()
             running.append((i, h, p, out))
         time.sleep(0.05)
         still = []
@@ -217,7 +219,8 @@ def run_servers(worlds, hseeds, workdir, parallel=16, timeout=3000, after=None):
                     still.append((i, h, p, out))
                 continue
             done.add(i)
-            err = p.stderr.read().decode("utf-8", "replace")
+            with open(os.path.join(workdir, "err.%d.txt" % i), "rb") as ef:
+                err = ef.read()[-4000:].decode("utf-8", "replace")
             if rc != 0:
                 errors.append("interpreter %d (hash seed %d) exited %d: %s" % (i, h, rc, err[-800:]))
                 continue
